@@ -723,4 +723,182 @@ theorem loop_isSome (k : LoopCfg) : ∀ (fuel : Nat) (rem acc : List Char) (curM
         split <;> (apply loop_isSome; simp only [List.length_drop]; omega)
       · rfl
 
+/-! ## the value of a re-broken string literal -/
+
+/-- one character of the scanner `strValueGo`: what it emits and the next state -/
+def valStep : ValState → Char → List Char × ValState
+  | .normal, c => if c == '\\' then ([], .esc) else ([c], .normal)
+  | .esc, c => if c == '\n' then ([], .skip) else (['\\', c], .normal)
+  | .skip, c => if isContWs c then ([], .skip) else if c == '\\' then ([], .esc) else ([c], .normal)
+
+def valOut : ValState → List Char → List Char
+  | _, [] => []
+  | st, c :: r => (valStep st c).1 ++ valOut (valStep st c).2 r
+
+def valEnd : ValState → List Char → ValState
+  | st, [] => st
+  | st, c :: r => valEnd (valStep st c).2 r
+
+theorem strValueGo_cons (st : ValState) (c : Char) (r : List Char) :
+    strValueGo st (c :: r) = (valStep st c).1 ++ strValueGo (valStep st c).2 r := by
+  cases st <;> simp only [strValueGo, valStep] <;> (repeat' split) <;> simp_all
+
+theorem strValueGo_append (st : ValState) (x y : List Char) :
+    strValueGo st (x ++ y) = valOut st x ++ strValueGo (valEnd st x) y := by
+  induction x generalizing st with
+  | nil => simp [valOut, valEnd]
+  | cons c r ih =>
+    simp only [List.cons_append, strValueGo_cons, valOut, valEnd, ih, List.append_assoc]
+
+theorem valEnd_append (st : ValState) (x y : List Char) : valEnd st (x ++ y) = valEnd (valEnd st x) y := by
+  induction x generalizing st with
+  | nil => rfl
+  | cons c r ih => simp only [List.cons_append, valEnd, ih]
+
+/-- after a character other than a backslash the scanner is not inside an escape -/
+theorem valStep_ne_esc (st : ValState) {c : Char} (hc : c ≠ '\\') : (valStep st c).2 ≠ .esc := by
+  cases st <;> simp only [valStep] <;> (repeat' split) <;> simp_all
+
+theorem valEnd_ne_esc (st : ValState) {x : List Char} {c : Char} (hc : c ≠ '\\') :
+    valEnd st (x ++ [c]) ≠ .esc := by
+  rw [valEnd_append]
+  simp only [valEnd]
+  exact valStep_ne_esc _ hc
+
+theorem isWs_of_isContWs {c : Char} (h : isContWs c = true) : isWs c = true := by
+  unfold isContWs at h
+  simp only [Bool.or_eq_true, beq_iff_eq] at h
+  rcases h with ((rfl | rfl) | rfl) | rfl <;> decide
+
+/-- in the white space a continuation swallows, more of it changes nothing -/
+theorem strValueGo_skip_ws (ws y : List Char) (h : ws.all isContWs = true) :
+    strValueGo .skip (ws ++ y) = strValueGo .skip y := by
+  induction ws with
+  | nil => rfl
+  | cons c r ih =>
+    simp only [List.all_cons, Bool.and_eq_true] at h
+    simp only [List.cons_append, strValueGo, h.1, if_true, ih h.2]
+
+/-- A line continuation (backslash, line feed, white space) read outside an escape denotes nothing. -/
+theorem strValueGo_continuation {st : ValState} (hst : st ≠ .esc) (ws y : List Char)
+    (h : ws.all isContWs = true) : strValueGo st ('\\' :: '\n' :: (ws ++ y)) = strValueGo .skip y := by
+  cases st with
+  | esc => exact absurd rfl hst
+  | normal => simp [strValueGo, strValueGo_skip_ws ws y h]
+  | skip =>
+    have : isContWs '\\' = false := by decide
+    simp [strValueGo, this, strValueGo_skip_ws ws y h]
+
+/-- before a character that a continuation does not swallow, "skipping" is the same as "normal" -/
+theorem strValueGo_skip_eq {st : ValState} (hst : st ≠ .esc) {y : List Char}
+    (hy : ∀ d r, y = d :: r → isContWs d = false) : strValueGo .skip y = strValueGo st y := by
+  cases st with
+  | esc => exact absurd rfl hst
+  | skip => rfl
+  | normal =>
+    cases y with
+    | nil => rfl
+    | cons d r => simp [strValueGo, hy d r rfl]
+
+/-- The format of a string literal as far as the loop is concerned: nothing is trimmed, a line ends in a
+backslash, the next one starts after a line feed and blanks or tabs. -/
+structure StringLike (k : LoopCfg) : Prop where
+  trim : k.trimEnd = false
+  lineEnd : k.lineEnd = ['\\']
+  bare : k.bareOk = true
+  indent : ∃ t, k.indentNl = '\n' :: t ∧ t.all isContWs = true
+  lineStart : k.lineStart.all isContWs = true
+
+theorem pushFit_verbatim (k : LoopCfg) (ht : k.trimEnd = false) (hb : k.bareOk = true) :
+    ∀ (rem acc : List Char), pushFit k rem acc = rem.reverse ++ acc
+  | [], acc => by simp [pushFit]
+  | g :: r, acc => by
+    unfold pushFit
+    split
+    · rename_i hg
+      have hg' : g = '\n' := by simpa [isNl] using hg
+      simp only [trimEndButLf, ht, hb]
+      simp only [Bool.false_eq_true, if_false, Bool.not_true, Bool.false_and]
+      rw [pushFit_verbatim k ht hb]
+      simp [hg']
+    · rw [pushFit_verbatim k ht hb]
+      simp
+
+/-- The loop of `rewrite_string` in the format of a string literal: what it appends to the buffer has the
+value of what was left of the input, from any state of the scanner outside an escape. -/
+theorem loop_value (k : LoopCfg) (hk : StringLike k) : ∀ (fuel : Nat) (rem acc : List Char) (curMax : Nat)
+    (acc' : List Char), loop k fuel rem acc curMax = some acc' →
+    ∃ mid, acc' = mid.reverse ++ acc ∧ ∀ st, st ≠ .esc → strValueGo st mid = strValueGo st rem
+  | 0, _, _, _, _, h => by simp [loop] at h
+  | fuel + 1, rem, acc, curMax, acc', h => by
+    unfold loop at h
+    split at h
+    · -- everything fits
+      cases h
+      refine ⟨rem, ?_, fun _ _ => rfl⟩
+      rw [pushFit_verbatim k hk.trim hk.bare]
+      simp [trimEndButLf, hk.trim]
+    · have hs := breakString_step curMax k.trimEnd k.lineEnd rem
+      rw [hk.trim] at hs
+      split at h
+      · rename_i line len heq
+        rw [hk.trim] at heq
+        rw [heq] at hs
+        cases hs with
+        | lineTrim _ _ hte => cases hte
+        | line _ _ h1 hnonl hlast hnext =>
+          obtain ⟨mid', hacc, hval⟩ := loop_value k hk fuel _ _ _ _ h
+          obtain ⟨t, hnl, ht⟩ := hk.indent
+          refine ⟨rem.take len ++ ('\\' :: '\n' :: (t ++ k.lineStart ++ mid')), ?_, ?_⟩
+          · rw [hacc, hk.lineEnd, hnl]
+            simp [pushStr]
+          · intro st hst
+            obtain ⟨c, hc, hcb⟩ := hlast
+            obtain ⟨d, hd, hdws⟩ := hnext
+            have hn : len - 1 + 1 = len := by omega
+            have htake : rem.take len = rem.take (len - 1) ++ [c] := by
+              have := take_succ_of_getElem? hc
+              rwa [hn] at this
+            have hs1 : valEnd st (rem.take len) ≠ .esc := by
+              rw [htake]; exact valEnd_ne_esc st hcb
+            have hdrop : rem.drop len = d :: rem.drop (len + 1) := drop_eq_cons_of_getElem? hd
+            rw [strValueGo_append]
+            have hall : (t ++ k.lineStart).all isContWs = true := by
+              rw [List.all_append, ht, hk.lineStart]; rfl
+            rw [strValueGo_continuation hs1 (t ++ k.lineStart) mid' hall]
+            rw [hval .skip (by simp)]
+            rw [strValueGo_skip_eq hs1 (y := rem.drop len) (by
+              intro d' r' hd'
+              rw [hdrop] at hd'
+              cases hd'
+              cases hcw : isContWs d with
+              | false => rfl
+              | true => rw [isWs_of_isContWs hcw] at hdws; cases hdws)]
+            rw [← strValueGo_append, List.take_append_drop]
+      · rename_i line len heq
+        rw [hk.trim] at heq
+        rw [heq] at hs
+        cases hs with
+        | feedTrim _ hte => cases hte
+        | feed _ _ h1 hnl =>
+          simp only [hk.bare, if_true] at h
+          obtain ⟨mid', hacc, hval⟩ := loop_value k hk fuel _ _ _ _ h
+          refine ⟨rem.take len ++ mid', ?_, ?_⟩
+          · rw [hacc]
+            simp [feedAcc, hk.trim, pushStr]
+          · intro st hst
+            have hn : len - 1 + 1 = len := by omega
+            have htake : rem.take len = rem.take (len - 1) ++ ['\n'] := by
+              have := take_succ_of_getElem? hnl
+              rwa [hn] at this
+            have hs1 : valEnd st (rem.take len) ≠ .esc := by
+              rw [htake]; exact valEnd_ne_esc st (by decide)
+            rw [strValueGo_append, hval _ hs1, ← strValueGo_append, List.take_append_drop]
+      · rename_i line heq
+        rw [hk.trim] at heq
+        rw [heq] at hs
+        cases h
+        cases hs with
+        | eoi => exact ⟨rem, by simp [pushStr], fun _ _ => rfl⟩
+
 end RF.Lemmas.StringFmt
